@@ -23,6 +23,10 @@ type Engine struct {
 	Exhaustive bool
 	// MaxWorkers caps the number of worker processes (0 = no cap).
 	MaxWorkers int
+	// Pool: engines with the same non-empty Pool share worker processes of their own, so that
+	// goroutines they may leave behind (abandoned controlled schedules) cannot be seen by the
+	// monitors of other engines
+	Pool string
 	// BlockIsViolation: a confirmed deadlock of the worker while executing a
 	// case of this engine is a violation (otherwise it is inconclusive).
 	BlockIsViolation bool
